@@ -697,8 +697,23 @@ fn lex_source_into_buffer<'source: 'tokens, 'tokens: 'buffer, 'buffer>(
 					{
 						let start_of_escape = location.end - 1;
 						location.end += 1;
-						match iter.next()
+						match iter.next_if(|&(_, y)| y != b'\n')
 						{
+							Some((_, b'\r'))
+								if matches!(iter.peek(), Some((_, b'\n'))) =>
+							{
+								location.end -= 1;
+								if first_error.is_none()
+								{
+									first_error = Some((
+										LexingError::UnexpectedTrailingBackslash,
+										TokenLocation {
+											start: start_of_escape,
+											..location
+										})
+									);
+								}
+							}
 							Some((_, b'n')) => push_byte(b'\n'),
 							Some((_, b'r')) => push_byte(b'\r'),
 							Some((_, b't')) => push_byte(b'\t'),
@@ -849,8 +864,23 @@ fn lex_source_into_buffer<'source: 'tokens, 'tokens: 'buffer, 'buffer>(
 					{
 						let start_of_escape = location.end - 1;
 						location.end += 1;
-						match iter.next()
+						match iter.next_if(|&(_, y)| y != b'\n')
 						{
+							Some((_, b'\r'))
+								if matches!(iter.peek(), Some((_, b'\n'))) =>
+							{
+								location.end -= 1;
+								if first_error.is_none()
+								{
+									first_error = Some((
+										LexingError::UnexpectedTrailingBackslash,
+										TokenLocation {
+											start: start_of_escape,
+											..location
+										})
+									);
+								}
+							}
 							Some((_, b'n')) => push_byte(b'\n'),
 							Some((_, b'r')) => push_byte(b'\r'),
 							Some((_, b't')) => push_byte(b'\t'),
